@@ -121,7 +121,7 @@ Fixpoint render (e : expr) : list token :=
   | ENum x _ => [tk (TNum x)]
   | EStr s _ => [tk (TStr s)]
   | EVar x _ => [tid x]
-  | EList es _ => tk TLSquare :: flat_map (fun e1 => render e1 ++ [tk TComma]) es ++ [tk TRSquare]
+  | EList es _ => tk TLSquare :: join_comma (map render es) ++ [tk TRSquare]
   | ERec ks vs _ =>
       tk TAt :: tk TLCurly :: flat_map entry_toks (combine (map render ks) (map render vs)) ++ [tk TRCurly]
   | EGroup e1 _ => tk TLParen :: render e1 ++ [tk TRParen]
@@ -268,24 +268,33 @@ Qed.
 
 (** ** the loops over items, entries and arguments *)
 Lemma items_read es : (forall e, In e es -> wfb 0 e = true /\ Pok 0 e) -> forall rest prev,
-  exists n es' prev', pitems n (St (flat_map (fun e1 => render e1 ++ [tk TComma]) es ++ tk TRSquare :: rest) prev)
+  exists n es' prev', pitems n (St (join_comma (map render es) ++ tk TRSquare :: rest) prev)
                       = Ok (es', St (tk TRSquare :: rest) prev') /\ map erase es' = map erase es.
 Proof.
   induction es as [|e es IH]; intros Hall rest prev.
   - exists 1, [], prev. split; reflexivity.
   - destruct (Hall e (or_introl eq_refl)) as [Hw Hp].
     destruct (render_cons e 0 Hw) as (t & r & Er & (O1 & O2 & O3) & _).
-    set (rest1 := tk TComma :: flat_map (fun e1 => render e1 ++ [tk TComma]) es ++ tk TRSquare :: rest).
-    destruct (Hp rest1 prev ltac:(discriminate) eq_refl) as (n1 & e' & t1 & P1 & E1).
-    destruct (IH (fun e0 H => Hall e0 (or_intror H)) rest (Some (tk TComma))) as (n2 & es' & prev2 & P2 & E2).
-    exists (S (Nat.max n1 n2)), (e' :: es'), prev2. split; [|simpl; rewrite E1, E2; reflexivity].
-    cbn [flat_map]. rewrite <- !app_assoc. cbn [app]. fold rest1.
-    cbn [pitems]. rewrite Er at 1. cbn [app]. rewrite hk_cons.
-    assert (Hm1 := proj1 (mono_ge n1 (Nat.max n1 n2) ltac:(lia)) _ _ _ P1).
-    assert (Hm2 := proj1 (proj2 (proj2 (proj2 (proj2 (mono_ge n2 (Nat.max n1 n2) ltac:(lia)))))) _ _ P2).
-    destruct (t_kind t) eqn:Hk; try (exfalso; apply O1; reflexivity).
-    all: rewrite Hm1; cbn [bind]; unfold rest1; rewrite hk_cons; cbn [t_kind tk]; rewrite adv_cons.
-    all: rewrite Hm2; reflexivity.
+    destruct es as [|e2 es].
+    + (* last item: directly followed by the closing bracket *)
+      destruct (Hp (tk TRSquare :: rest) prev ltac:(discriminate) eq_refl) as (n1 & e' & t1 & P1 & E1).
+      exists (S (S n1)), [e'], (Some t1). split; [|simpl; rewrite E1; reflexivity].
+      cbn [map join_comma]. cbn [pitems]. rewrite Er at 1. cbn [app]. rewrite hk_cons.
+      assert (Hm1 := proj1 (mono_ge n1 (S n1) ltac:(lia)) _ _ _ P1).
+      destruct (t_kind t) eqn:Hk; try (exfalso; apply O1; reflexivity).
+      all: rewrite Hm1; cbn [bind]; rewrite hk_cons; cbn [t_kind tk bind]; reflexivity.
+    + set (rest1 := tk TComma :: join_comma (map render (e2 :: es)) ++ tk TRSquare :: rest).
+      destruct (Hp rest1 prev ltac:(discriminate) eq_refl) as (n1 & e' & t1 & P1 & E1).
+      destruct (IH (fun e0 H => Hall e0 (or_intror H)) rest (Some (tk TComma))) as (n2 & es' & prev2 & P2 & E2).
+      exists (S (Nat.max n1 n2)), (e' :: es'), prev2. split; [|simpl in *; rewrite E1, E2; reflexivity].
+      change (join_comma (map render (e :: e2 :: es))) with (render e ++ tk TComma :: join_comma (map render (e2 :: es))).
+      rewrite <- app_assoc. cbn [app]. fold rest1.
+      cbn [pitems]. rewrite Er at 1. cbn [app]. rewrite hk_cons.
+      assert (Hm1 := proj1 (mono_ge n1 (Nat.max n1 n2) ltac:(lia)) _ _ _ P1).
+      assert (Hm2 := proj1 (proj2 (proj2 (proj2 (proj2 (mono_ge n2 (Nat.max n1 n2) ltac:(lia)))))) _ _ P2).
+      destruct (t_kind t) eqn:Hk; try (exfalso; apply O1; reflexivity).
+      all: rewrite Hm1; cbn [bind]; unfold rest1; rewrite hk_cons; cbn [t_kind tk]; rewrite adv_cons.
+      all: rewrite Hm2; reflexivity.
 Qed.
 
 Lemma entries_read ks : forall vs, length ks = length vs ->
